@@ -47,6 +47,10 @@ add("C08", "runtime monitoring: boundary monitors on every conversion function a
     "All labelled graphs on <=4 (thorough <=5) vertices and random graphs up to 40 vertices (8 for density matrices), in permuted node orders and random generating sets, go through graph<->stabilizer<->density conversions and all six ordered convert_representation pairs; all stabilizer states on <=2 (thorough <=3) qubits and random states up to 12 qubits go through state_to_graph, whose returned gates are replayed by the oracle onto the input and must give the returned graph's state with exact signs.",
     TRUST, "DESIGN.md section 5, C08")
 
+add("C01", "runtime monitoring: lock-step online checker - sys.monitoring probes on compile / compile_one_gate / measurement primitives record every executed operation, outcome, state and classical register, replayed against an independent reference simulator of the harness' own program specification; tableau monitor active underneath",
+    "Thousands of generated programs (add / insert_at interleavings, gates after measure-and-reset, classical control between same-type registers, 1-qubit circuits, wrappers) are compiled by both backends under forced 0 / forced 1 / probabilistic outcomes and optional stabilizer initial states. The monitor checks that the executed order is a linear extension of the per-register program order, that every drawn or forced outcome is possible / as forced, and compares the backend state and the classical register array with the reference after every single operation and at the end.",
+    TRUST + "Probabilistic runs are judged conditioned on the outcomes drawn; outcome frequencies are not judged.", "DESIGN.md section 5, C01")
+
 NOT_YET = {
 }
 
